@@ -172,6 +172,9 @@ def check_case(case, seed, entity_mode="random", options_override=None, want_num
                 tol = 2e-4 if scalar in ("float32", "complex64") else 1e-9
                 scale = max(np.max(np.abs(exp)), 1e-3)    # inputs are O(1): below 1e-3 the comparison is absolute (tensors that vanish identically)
                 errs = [float(np.max(np.abs(Ak - exp)) / scale) for Ak in candidates]
+                # a tensor that vanishes identically: kernel and oracle both return rounding noise whose size depends on
+                # the magnitudes multiplied before the cancellation; with O(1) data anything below 1e-8 is zero
+                errs = [0.0 if (np.max(np.abs(exp)) <= 1e-8 and np.max(np.abs(Ak)) <= 1e-8) else x for Ak, x in zip(candidates, errs)]
                 err = min(errs)
                 A = candidates[int(np.argmin(errs))]
                 if fminus is not None:
@@ -393,6 +396,8 @@ def check_expression_case(case, seed):
                 tol = 2e-4 if scalar in ("float32", "complex64") else 1e-9
                 scale = max(np.max(np.abs(exp)), 1e-3)    # inputs are O(1): below 1e-3 the comparison is absolute (tensors that vanish identically)
                 err = float(np.max(np.abs(A - exp)) / scale) if A.shape == exp.shape else float("inf")
+                if A.shape == exp.shape and np.max(np.abs(exp)) <= 1e-8 and np.max(np.abs(A)) <= 1e-8:
+                    err = 0.0      # identically vanishing value: rounding noise on both sides
                 worst = max(worst, err)
                 if err > tol:
                     kr.update(status="mismatch", entity=ent, error=err, observed=[float(x) for x in np.real(A[:12])],
